@@ -43,9 +43,19 @@ def run (pred : Pred) (s : Nat) (isT : Nat → Option Nat → Bool) (observed : 
       if observed == want then none else some s!"spec-says {want}"
     else none
   let chainLen := ((List.range (pred.length + 1)).filter (fun k => (chain pred s k).isSome)).length
+  -- shape of the chain from `s`: ends in `none` within `len` links, or runs into a cycle
+  let cyclic := (chain pred s pred.length).isSome
+  let selfRef := (pred[s]?).getD none == some s
+  let outcome :=
+    match observed with
+    | [V.l [_]] => "hit-at-start"
+    | [V.l _] => "hit-later"
+    | [V.a "panic"] => "res-panic"
+    | _ => if cyclic then "miss-cycle" else "miss-chain-ends"
   let tags := [ if applicable then "in-range" else "out-of-range",
-                if observed == [V.a "none"] then "res-none" else if observed == [V.a "panic"] then "res-panic" else "res-some",
-                s!"len{min pred.length 6}" ]
+                outcome,
+                if cyclic then (if selfRef then "start-self-ref" else "cyclic") else "acyclic",
+                if pred.length ≤ 2 then "len1-2" else if pred.length ≤ 5 then "len3-5" else "len6+" ]
   classify observed model propFail (nt := pred.length ≥ 2 && chainLen ≥ 2) tags
 
 def hSearchBy : Handler := fun _ args obs =>
